@@ -4,7 +4,7 @@
 p=$1
 for x in A B C; do
   [ -f /tmp/wt/out-$p/$x/patch.diff ] || { echo "$p/$x: nothing delivered"; continue; }
-  for l in C D E F G H I J K L M N O P Q R S T U V W X Y Z ZA ZB ZC ZD; do [ -d /verif/seeded/$p-$l ] || break; done
+  for l in C D E F G H I J K L M N O P Q R S T U V W X Y Z ZA ZB ZC ZD ZE ZF ZG ZH ZI; do [ -d /verif/seeded/$p-$l ] || break; done
   /verif/tools/verify_seed.sh /tmp/wt/out-$p/$x $p-$l 2>&1 | tail -1
   [ -d /verif/seeded/$p-$l ] && /verif/tools/matrix.sh $p-$l
 done
